@@ -307,7 +307,7 @@ func TestVerifC13Sequential(t *testing.T) {
 	run := vk.Start(t, "C13", "sequential")
 	defer run.Finish()
 	run.Rule("seeded histories of 30-80 operations over keys k1..k4 (all 19 operations + sleep 60 ms; values: strings, JSON strings, int64; ttl in {0, 40 ms, 1 h}), generated as a pure function of the seed with a synthetic-clock copy of the model biasing towards live/expired/typed states; executed on a fresh memory.Storage; every answer (and an immediate Get read-back after every mutator, so that a wrong effect is attributed to the operation that caused it) compared with the reference map-with-expiry under the interval rule; distinct = (previous op > op, ttl-argument class, key state before)")
-	nh := run.Pick(400, 12000)
+	nh := run.Pick(400, 8000)
 	workers := 8
 	st := &c13SeqStats{bigrams: map[string]struct{}{}, marks: map[string]int64{}}
 	master := run.Rand("histories")
